@@ -1,7 +1,8 @@
-(* extraction of the C12 executable models (iterators, hull, LintGroup::lint with its chunk cache);
+(* extraction of the C12 executable models (iterators, hull, LintGroup::lint with its chunk cache; since phase 3
+   also C02's lexer + Document::parse passes as kind classes: run_doc / run_raw of Model/C12Doc.v);
    ExtrOcamlBasic only *)
 Require Extraction.
 Require Import ExtrOcamlBasic.
-Require Import Base Overlap ParaSplit.
+Require Import Base Overlap ParaSplit C12Doc.
 Extraction Language OCaml.
-Extraction "../ocaml/gen/c12_model.ml" run_iter run_group run_long.
+Extraction "../ocaml/gen/c12_model.ml" run_iter run_group run_long run_doc run_raw.
